@@ -301,6 +301,7 @@ def handle (toks : List String) : Option String :=
       if akind = "pin-mismatch" then some (hc.set 0 ((hc.getD 0 0) ^^^ 1))
       else if akind = "pin-prefix" then some (hc.take 4)
       else if akind = "pin-permuted" then some hc.reverse
+      else if akind = "pin-overlong" then some (hc ++ [0])
       else if akind = "pin-ok" then some hc else none
     let c : CloneCmd := ⟨⟨flags = "force", flags = "seed-output", false⟩, pin, "out", apath, []⟩
     let r := Cli.clone Blake2b.hash (fun _ b _ => some b) c fs
